@@ -786,12 +786,10 @@ def minimize(
                 improve_geometry = (
                     ill_conditioned
                     or ratio <= constants[Constants.LOW_RATIO]
-                    and dist_new
-                    > max(
-                        framework.radius,
-                        constants[Constants.RESOLUTION_FACTOR]
-                        * framework.resolution,
-                    )
+                ) and dist_new > max(
+                    framework.radius,
+                    constants[Constants.RESOLUTION_FACTOR]
+                    * framework.resolution,
                 )
                 enhance_resolution = (
                     radius_save <= framework.resolution
